@@ -20,6 +20,17 @@ def claimed():
 
 import queue
 SLOTS = queue.Queue()
+# the checks are run from a snapshot of /verif's committed HEAD, so that edits made to /verif while a long
+# evaluation is running cannot be picked up half-way (an inconsistent harness would be reported as a violation)
+SNAP = '/tmp/sev_snapshot_%d' % os.getpid()
+
+
+def make_snapshot():
+    shutil.rmtree(SNAP, ignore_errors=True)
+    os.makedirs(SNAP)
+    ar = subprocess.Popen(['git', '-C', ROOT, 'archive', 'HEAD'], stdout=subprocess.PIPE)
+    subprocess.run(['tar', '-x', '-C', SNAP], stdin=ar.stdout, check=True)
+    ar.wait()
 
 
 def eval_one(sid, checks, tier, jobs_each):
@@ -34,7 +45,7 @@ def eval_one(sid, checks, tier, jobs_each):
 
 def eval_in_slot(slot, sid, checks, tier, jobs_each):
     d = os.path.join(ROOT, 'seeded', sid)
-    wt = f'/tmp/se_slot{slot}_wt'
+    wt = f'/tmp/sev_slot{slot}_{os.getpid()}_wt'
     subprocess.run(['git', '-C', '/repo', 'worktree', 'remove', '--force', wt], capture_output=True)
     shutil.rmtree(wt, ignore_errors=True)
     r = subprocess.run(['git', '-C', '/repo', 'worktree', 'add', '--detach', wt, 'HEAD'], capture_output=True, text=True)
@@ -46,11 +57,11 @@ def eval_in_slot(slot, sid, checks, tier, jobs_each):
         r = subprocess.run(['git', '-C', wt, 'apply', os.path.join(d, 'patch.diff')], capture_output=True, text=True)
         if r.returncode != 0:
             return sid, {'error': 'patch does not apply: ' + r.stderr[-300:]}
-        shadow = f'/tmp/se_slot{slot}_shadow'
+        shadow = f'/tmp/sev_slot{slot}_{os.getpid()}_shadow'
         env = dict(os.environ, VERIF_REPO=wt, VERIF_SHADOW=shadow, VERIF_JOBS=str(jobs_each))
         for c in checks:
             t0 = time.time()
-            p = subprocess.run([os.path.join(ROOT, 'check'), c, '--tier', tier], capture_output=True, text=True, env=env, cwd=ROOT)
+            p = subprocess.run([os.path.join(SNAP, 'check'), c, '--tier', tier], capture_output=True, text=True, env=env, cwd=SNAP)
             nviol = sum(1 for l in p.stdout.splitlines() if l.startswith('VIOLATION '))
             first = next((l.strip() for l in p.stdout.splitlines() if l.startswith('  violation:')), '')
             what = ''
@@ -96,6 +107,7 @@ def main():
         return [c for c in checks_mode.split(',') if c in cl]
 
     jobs_each = max(2, (os.cpu_count() or 4) // jobs)
+    make_snapshot()
     for k in range(jobs):
         SLOTS.put(k)
     with ThreadPoolExecutor(max_workers=jobs) as ex:
@@ -120,7 +132,8 @@ def main():
             print(f'{sid}: own={own} {"DETECTED" if own in det else ("own-check-not-built" if own not in cl else "MISSED")} by={det} machinery={mach} ' + (res.get(own, {}).get('first', '') if own in res else ''))
             sys.stdout.flush()
     for k in range(jobs):
-        shutil.rmtree(f'/tmp/se_slot{k}_shadow', ignore_errors=True)
+        shutil.rmtree(f'/tmp/sev_slot{k}_{os.getpid()}_shadow', ignore_errors=True)
+    shutil.rmtree(SNAP, ignore_errors=True)
 
 
 if __name__ == '__main__':
